@@ -24,11 +24,14 @@ const client = "client1"
 
 // Entry is one request (or batch position).
 type Entry struct {
-	Key   int           `json:"key"`
-	ByKey bool          `json:"by_key,omitempty"`
-	Att   *vkit.Att     `json:"att,omitempty"`
-	Prop  *vkit.Prop    `json:"prop,omitempty"`
-	Gen   *vkit.Generic `json:"gen,omitempty"`
+	// Refusable: the entry is built so that the rules refuse it (slashable domain on a generic
+	// endpoint, target not above source on the attestation endpoint): batches with mixed verdicts.
+	Refusable bool          `json:"refusable,omitempty"`
+	Key       int           `json:"key"`
+	ByKey     bool          `json:"by_key,omitempty"`
+	Att       *vkit.Att     `json:"att,omitempty"`
+	Prop      *vkit.Prop    `json:"prop,omitempty"`
+	Gen       *vkit.Generic `json:"gen,omitempty"`
 }
 
 // Req is one call to an endpoint.
@@ -256,6 +259,21 @@ func genCase(t *rapid.T) *Case {
 				}
 				e.Gen = gg
 			}
+			if n > 1 && rapid.IntRange(0, 9).Draw(t, "refusable") == 0 {
+				switch {
+				case e.Gen != nil:
+					g2 := *e.Gen
+					g2.Domain = domain(t, [4]byte{byte(rapid.IntRange(0, 1).Draw(t, "slashable_pfx")), 0, 0, 0})
+					e.Gen, e.Refusable = &g2, true
+				case e.Att != nil && kind == "attests":
+					a2 := *e.Att
+					a2.SrcEpoch = a2.TgtEpoch // target not above source: refused, state untouched
+					if a2.TgtEpoch == 0 {
+						a2.SrcEpoch, a2.TgtEpoch = 5, 5
+					}
+					e.Att, e.Refusable = &a2, true
+				}
+			}
 			r.Entries = append(r.Entries, e)
 		}
 		c.Reqs = append(c.Reqs, r)
@@ -363,7 +381,13 @@ func run(c *Case) (*outcome, *vkit.Violation, error) {
 				o.extreme = true
 			}
 		}
-		if ok == len(r.Entries) && len(r.Entries) > c.Procs {
+		want := 0
+		for i := range r.Entries {
+			if !r.Entries[i].Refusable {
+				want++
+			}
+		}
+		if ok == want && ok > 0 && len(r.Entries) > c.Procs {
 			o.bigOK = true
 		}
 		o.summaries = append(o.summaries, map[string]any{"kind": r.Kind, "entries": len(r.Entries), "via_grpc": r.ViaGRPC, "succeeded": ok, "first_entry": r.Entries[0]})
@@ -376,6 +400,9 @@ func run(c *Case) (*outcome, *vkit.Violation, error) {
 		}
 		if ok < len(r.Entries) {
 			vkit.S.Class("request-with-unsigned-positions")
+		}
+		if ok > 0 && ok < len(r.Entries) {
+			vkit.S.Class("batch-with-mixed-verdicts")
 		}
 	}
 
